@@ -189,8 +189,11 @@ def gen_multi_case(r, big=False, with_disconnect=None):
             ev.append(m)
         elif x < 0.45:
             ev += [["T"], ["W", r.choice([0, 0, 0, 1, -1, 30])]]
-        elif x < 0.55:
+        elif x < 0.50:
             ev.append(["T"])
+        elif x < 0.55:
+            # the library's own loop: prepare, sleep (epoll_wait), prepare
+            ev.append(["I", r.choice([0, 0, 0, 1, 100, 1999, 2000, 2001, 5000, 100000, 4294967295])])
         elif x < 0.72:
             ev.append(["A", r.choice([0, 1, 10, 500, 1000, 1999, 2000, 2001, 3000, 7000, 60000])])
         elif x < 0.90 and sent:
@@ -258,6 +261,41 @@ def gen_nstart1_case(r):
     ev += drain((mx + 2) * ns + 1)
     ev += [["T"], ["Q"]]
     return {"cfgs": cfgs, "ev": ev, "kind": "nstart1"}
+
+
+# ---------------------------------------------------------------- the library's own I/O loop
+def gen_ioloop_case(r):
+    """messages driven by coap_io_process() itself (epoll_wait interposed: it sleeps exactly as long
+    as it is told): COAP_IO_WAIT = the punctual driver; finite timeouts and NO_WAIT = early ticks"""
+    ns = r.choice([1, 1, 2])
+    cfgs = [rand_cfg(r, nstart=1000) for _ in range(ns)]
+    ev = []
+    sent = []
+    mid = r.randrange(60000)
+    mode = r.choice(["wait", "wait", "mixed", "short"])
+    for _ in range(r.randrange(1, 4)):
+        s = r.randrange(ns)
+        m = rand_msg(r, s, mid)
+        mid += 1
+        sent.append(m)
+        ev.append(m)
+        if r.random() < 0.7:
+            ev.append(["Q"])            # (shows the oracle the message's deadline, i.e. its T)
+        for _ in range(r.randrange(0, 4)):
+            if mode == "wait":
+                ev.append(["I", 0])
+            elif mode == "short":
+                ev.append(["I", r.choice([1, 50, 500, 1500, 4294967295])])
+            else:
+                ev.append(["I", r.choice([0, 0, 700, 2500, 4294967295, 2147483648, 4000000000])])
+        if r.random() < 0.3 and sent:
+            ev.append(ack_event(r, r.choice(sent)))
+            no_empty_ack_for_request(ev, sent)
+    mx = max(eff_max(c) for c in cfgs)
+    for _ in range((mx + 2) * len(sent) + 1):
+        ev.append(["I", 0])
+    ev += [["Q"]]
+    return {"cfgs": cfgs, "ev": ev, "kind": "ioloop-" + mode}
 
 
 # ---------------------------------------------------------------- cancel paths, several sessions
